@@ -42,6 +42,9 @@ class CompileMapper(StringifyMapper):
                 expr = float(expr)
             elif isinstance(expr, numpy.complexfloating):
                 expr = complex(expr)
+            elif isinstance(expr, (numpy.integer, numpy.bool_)):
+                # numpy >= 2 reprs these as np.int64(4) / np.True_
+                expr = expr.item()
 
         result = repr(expr)
 
